@@ -52,14 +52,17 @@ def register_qbytestensor_op(aten_ops: List[Callable]):
 
 
 def quantize_like(dest, values):
-    """Quantize values with the qtype and axis of a QBytesTensor, and a scale extended to the range of the values"""
+    """Quantize values with the qtype and axis of a QBytesTensor, and a scale adjusted to the range of the values"""
     values = values.to(dest.dtype)
     if dest.axis is None:
         absmax = torch.max(torch.abs(values))
     else:
         absmax = torch.amax(torch.abs(values), dim=axis_to_dim(values, dest.axis), keepdim=True)
-    # The destination keeps its scale unless the values do not fit in its range
-    scale = torch.maximum(dest._scale, absmax / dtype_info(dest.qtype.dtype).max)
+    # The destination keeps its scale (and the values that did not change keep their codes) as long as the values fit
+    # in its range and use more than half of it. A null range also keeps it: a scale must not be null.
+    fitted = absmax / dtype_info(dest.qtype.dtype).max
+    keep = ((fitted <= dest._scale) & (2 * fitted > dest._scale)) | (fitted == 0)
+    scale = torch.where(keep, dest._scale, fitted)
     return SymmetricQuantizer.apply(values, dest.qtype, dest.axis, scale)
 
 
@@ -68,7 +71,7 @@ def qbytes_inplace_fallback(op, *args, **kwargs):
 
     The generic fallback applies the operation to dequantized tensors: the values written there would be lost.
     Here, the operation is also applied to dequantized tensors, but each QBytesTensor it has written is then
-    quantized again from its dequantized counterpart (same qtype and axis, with a scale extended to the new range).
+    quantized again from its dequantized counterpart (same qtype and axis, with a scale adjusted to the new range).
 
     Args:
         op: the operator overload (its schema tells which arguments are written)
